@@ -139,6 +139,58 @@ theorem gain_offset_single_point_no_fit (x y : ℚ) (fr : Bool) (oF : Option ℚ
   unfold fitGainOffsetS ols olsGain divO
   simp
 
+/-- **When the gain model has a solution** (findings D33, D51): exactly when the window's source sum is not zero.  A window of valid
+    zero-valued source pixels (or mixed-sign data summing to zero) has none, whatever the reference holds - the pixel carries no
+    parameters and is lost; so does every window of a block whose normalised source sums to zero. -/
+theorem gain_fit_exists_iff (s : Sums) (fr : Bool) : (fitGainS s fr).isSome = true ↔ s.S ≠ 0 := by
+  unfold fitGainS divO
+  by_cases h : s.S = 0 <;> simp [h]
+
+/-- **A constant source window has no least-squares solution** (findings D34, D36, D66; D17 is the case `N = 1`): if every
+    jointly valid source value of the window equals `c`, then `N·ΣS² − (ΣS)² = N·(N c²) − (N c)² = 0` and the two-parameter model
+    without in-painting gives no parameters, whatever the reference holds and however large the window is. -/
+theorem gain_offset_constant_source_no_fit (n c r rr sr : ℚ) (fr : Bool) (oF : Option ℚ) :
+    fitGainOffsetS ⟨n, n * c, r, n * (c * c), rr, sr⟩ fr none oF = none := by
+  unfold fitGainOffsetS ols olsGain divO
+  have : n * (n * (c * c)) - n * c * (n * c) = 0 := by ring
+  simp [this]
+
+/-- … and with in-painting on, such a window is always handed to the in-painter (its R² does not exist), so whether the pixel
+    survives is decided by what `fillnodata` finds around it (finding D34: nothing beyond its search distance; D25: nothing in the
+    block) -/
+theorem gain_offset_constant_source_inpainted (n c r rr sr t : ℚ) (fr : Bool) (oF : Option ℚ) :
+    fitGainOffsetS ⟨n, n * c, r, n * (c * c), rr, sr⟩ fr (some t) oF = inpainted ⟨n, n * c, r, n * (c * c), rr, sr⟩ oF none := by
+  unfold fitGainOffsetS ols olsGain divO
+  have : n * (n * (c * c)) - n * c * (n * c) = 0 := by ring
+  simp [this]
+
+/-- **A block whose jointly valid source values are all equal has variance 0** (findings D51, D68): the block normalisation of
+    the default model, `std(ref) / std(src)`, then divides by zero - every parameter of the block is inf / NaN, the whole block
+    comes out as nodata, and whether a saturated area loses its pixels depends on whether a block fits inside it. -/
+theorem variance_of_constant (xs : List ℚ) (c : ℚ) (h : ∀ x ∈ xs, x = c) (hne : xs ≠ []) : variance xs = 0 := by
+  have hsum : ∀ ys : List ℚ, (∀ x ∈ ys, x = c) → ys.sum = (ys.length : ℚ) * c := by
+    intro ys
+    induction ys with
+    | nil => intro _; simp
+    | cons y t ih =>
+      intro hy
+      rw [List.sum_cons, List.length_cons, ih (fun x hx => hy x (List.mem_cons_of_mem _ hx)), hy y List.mem_cons_self]
+      push_cast
+      ring
+  have hlen : (xs.length : ℚ) ≠ 0 := by
+    have : xs.length ≠ 0 := fun h0 => hne (List.length_eq_zero_iff.mp h0)
+    exact_mod_cast this
+  unfold variance
+  simp only
+  rw [hsum xs h, mul_div_cancel_left₀ c hlen]
+  have hz : (xs.map fun x => (x - c) * (x - c)) = xs.map fun _ => (0 : ℚ) := by
+    apply List.map_congr_left
+    intro x hx
+    rw [h x hx]
+    ring
+  rw [hz]
+  simp
+
 /-! non-vacuity -/
 example : (correctedPx (some 3) true [((1:ℚ)/4, ⟨2, 1, none⟩), (3/4, ⟨4, 0, none⟩)]) = some (43/4) := by
   decide +kernel
